@@ -57,6 +57,8 @@ def gen_program(rng: random.Random, unit_size: int, max_len: int = 30, arrays=(0
     total = body_start + n_body
 
     def target(i):
+        if rng.random() < 0.04:
+            return total + rng.choice([1, 2, 7, 1000, 2**31 - 1 - total])   # past the end: the subroutine simply ends
         if rng.random() < 0.7:
             return rng.randrange(min(i + 1, total), total + 1)
         return rng.randrange(0, total + 1)
@@ -107,6 +109,8 @@ def _rand_instr(rng, pool, arrays, i, total, waits=True):
         return rng.choice(SMALL) if rng.random() < 0.85 else rng.choice(WIDE)
 
     def target():
+        if rng.random() < 0.04:
+            return total + rng.choice([1, 2, 7, 1000, 2**31 - 1 - total])   # past the end: the subroutine simply ends
         if rng.random() < 0.75:
             return rng.randrange(min(i + 1, total), total + 1)
         return rng.randrange(0, total + 1)
